@@ -114,9 +114,12 @@ func osmDocs() []osmDoc {
 				22: {{"r", 23}},
 				23: {{"r", 22}, {"w", 12}},
 				24: {{"r", 21}},
+				25: {{"n", 6}, {"n", 7}}, // members of one kind only: each kind must ask for its own pass
+				26: {{"w", 10}},
+				27: {{"r", 25}},
 			},
 			wayOrder: []int64{10, 11, 12},
-			relOrder: []int64{20, 21, 22, 23, 24},
+			relOrder: []int64{20, 21, 22, 23, 24, 25, 26, 27},
 			selected: sel,
 		}
 	}
@@ -126,6 +129,9 @@ func osmDocs() []osmDoc {
 		base("a relation three levels above a way", osmRef{"r", 24}),
 		base("a relation in a cycle of two", osmRef{"r", 22}),
 		base("a node", osmRef{"n", 7}),
+		base("a relation of nodes only", osmRef{"r", 25}),
+		base("a relation of one way only", osmRef{"r", 26}),
+		base("a relation of one relation only (of nodes)", osmRef{"r", 27}),
 		base("two ways sharing a node", osmRef{"w", 10}, osmRef{"w", 11}),
 		base("nothing"),
 	}
